@@ -15,7 +15,7 @@ sys.path.insert(0, VERIF)
 REPO = os.environ.get("PRTPY_REPO", "/repo")
 os.environ.setdefault("PYTHONHASHSEED", "0")
 
-from harness import runner, units, coqstage, evidence as ev   # noqa: E402
+from harness import runner, units, coqstage, vmcheck, evidence as ev   # noqa: E402
 
 
 def load_known():
@@ -50,6 +50,8 @@ def evaluate(prop, us, timeout=60):
     t1 = time.time()
     replies = runner.run_model(lines)
     t2 = time.time()
+    oc.requests = [reqs[i] for i in where]
+    oc.raw_replies = replies
     oc.model = [None] * len(us)
     for i, r in zip(where, replies):
         oc.model[i] = units.norm_model(us[i]["kind"], us[i]["params"], r)
@@ -181,6 +183,15 @@ def main():
     extra = prop.extra_checks(rng, tier, us, oc) if hasattr(prop, "extra_checks") else []
     # extra: list of {"text":..., "units":[...], "kind": "judge"|"corr"} property-level checks (metamorphic pairs, histories...)
 
+    # ---- 5b. the extracted driver against vm_compute on the same requests (sample)
+    vm = {"checked": 0, "mismatches": [], "eligible": 0}
+    if not args.no_coq and not args.replay:
+        try:
+            vm = vmcheck.cross_check(oc.requests, oc.raw_replies, rng, sample=40 if tier == "quick" else 200)
+        except Exception as e:
+            vm = {"checked": 0, "mismatches": [f"cross-check failed to run: {type(e).__name__}: {e}"], "eligible": 0}
+    oc.vm = vm
+
     # ---- 6. classify
     bad = sorted(set(oc.mismatch) | set(oc.judged))
     found_input = []
@@ -256,6 +267,12 @@ def main():
         path = write_replay("violation_extra", {"property": pid, "kind": x.get("kind", "failing-input"),
                                                 "what": x["text"], "units": x.get("units", []), "detail": x.get("detail")})
         violations.append((x["text"], path, x.get("kind", "failing-input") == "failing-input"))
+
+    if oc.vm["mismatches"]:
+        path = write_replay("extraction", {"property": pid, "kind": "correspondence-break",
+                                           "no_longer_checks": "extracted OCaml driver vs vm_compute on the Gallina definitions (trusted glue: extraction + ocaml/driver.ml)",
+                                           "mismatches": oc.vm["mismatches"]})
+        violations.append((f"extracted model and vm_compute disagree: {oc.vm['mismatches'][0][:200]}", path, False))
 
     if not coq["ok"]:
         path = write_replay("proof", {"property": pid, "kind": "proof-obligation-break",
